@@ -126,6 +126,7 @@ def main(argv):
         print("tier must be quick or thorough")
         return 2
     seed = core.env_seed()
+    core.prune_cache()
     rng = random.Random(f"{prop_id}:{seed}")
     t0 = time.time()
     known = core.load_known()
@@ -156,7 +157,9 @@ def main(argv):
                           if any(".GenTie." in f for f in failed) else ""), "log": log[-3000:]})
 
     # 3. audit ----------------------------------------------------------------
-    thms = [t["name"] for t in mod.THEOREMS]
+    # entries with strength "monitored" name clauses of the property that have NO theorem (decided by
+    # evaluation on real runs only); they are listed for honesty and are not proof obligations
+    thms = [t["name"] for t in mod.THEOREMS if t.get("strength") != "monitored"]
     discharged = 0
     audit_res = {}
     forb = core.grep_forbidden(core.lean_sources())
